@@ -22,7 +22,11 @@ def sh(cmd, cwd=None, env=None, timeout=3600):
 
 def baseline(tree):
     xml = tempfile.mktemp(suffix='.xml')
-    sh('/venv/bin/python -m pytest -q -p no:cacheprovider --timeout=900 --continue-on-collection-errors --junitxml=%s' % xml, cwd=tree)
+    scratch = tempfile.mkdtemp(prefix='vpbase')     # the repository's tests leave tmp-wpull-*.pem files behind
+    sh('/venv/bin/python -m pytest -q -p no:cacheprovider --timeout=900 --continue-on-collection-errors --junitxml=%s' % xml, cwd=tree,
+       env=dict(os.environ, TMPDIR=scratch))
+    import shutil
+    shutil.rmtree(scratch, ignore_errors=True)
     base = set(json.load(open('/root/.vp/BASELINE.json'))['stable_pass'])
     passed = set()
     for tc in ET.parse(xml).getroot().iter('testcase'):
